@@ -114,6 +114,9 @@ def _fingerprint(m):
     return tuple(out)
 
 
+BODY_EXC = [RuntimeError, KeyboardInterrupt, SystemExit, GeneratorExit, RuntimeError]
+
+
 def run_real(pool, ops):
     import tea_tasting as tt
     import tea_tasting.config as C
@@ -159,7 +162,9 @@ def run_real(pool, ops):
                     with tt.config_context(**{n: pool[i] for n, i in op[1]}):
                         run(op[2])
                         if op[3]:
-                            raise RuntimeError("body")
+                            # any way of leaving the body by an exception: ordinary errors and the BaseExceptions
+                            # (sys.exit() caught by the caller, Ctrl-C, a generator closed early)
+                            raise BODY_EXC[(len(op[1]) + len(op[2])) % len(BODY_EXC)]("body")
                 finally:
                     if not same_dict(before, C._global_config):
                         trace.append(("configuration after config_context differs from before", op))
@@ -170,7 +175,7 @@ def run_real(pool, ops):
         out = 1
     except ValueError:
         out = 2
-    except RuntimeError:
+    except (RuntimeError, KeyboardInterrupt, SystemExit, GeneratorExit):
         out = 4
     except Exception:
         out = 3
